@@ -323,13 +323,13 @@ Definition count_kind (k : String.string) : nat :=
 Definition rules_with_sites : list String.string :=
   nodup String.string_dec (map site_rule struct_rule_sites).
 Definition expected_pinned : list String.string :=
-  ["AdjectiveOfA::lint"; "AnA::lint"; "CapitalizePersonalPronouns::lint"; "CommaFixes::lint"; "Document::get_token";
+  ["AdjectiveOfA::lint"; "AnA::lint"; "CapitalizePersonalPronouns::lint"; "CommaFixes::lint"; "CurrencyPlacement::lint"; "Document::get_token";
    "ExactPhrase::from_document"; "InflectedVerbAfterTo::lint"; "LinkingVerbs::lint"; "MergeWords::lint";
    "ModalOf::default"; "ModalOf::match_to_lint"; "NoOxfordComma::lint"; "NoOxfordComma::match_to_lint"; "OxfordComma::lint";
    "PatternMap::lookup"; "ProperNounCapitalizationLinter::match_to_lint"; "ProperNounCapitalizationLinter::new";
    "RepeatedWords::lint"; "SentenceCapitalization::lint"; "Spaces::lint"; "SpellCheck::lint"; "SpellCheck::new";
    "SpelledNumbers::lint"; "TokenStringExt::iter_linking_verb_indices";
-   "an_a::starts_with_vowel"; "create_fns_for!"; "create_fns_on_doc!"; "iter_<thing>_indices"; "spelled_numbers::spell_out_number"].
+   "an_a::starts_with_vowel"; "create_fns_for!"; "create_fns_on_doc!"; "currency_placement::generate_lint_for_tokens"; "iter_<thing>_indices"; "spelled_numbers::spell_out_number"].
 Definition k_unwrap := "unwrap".  Definition k_expect := "expect".  Definition k_index := "index".
 Definition k_span_new := "span_new".  Definition k_macro := "macro".
 Lemma struct_rule_census :
@@ -338,8 +338,8 @@ Lemma struct_rule_census :
   List.length struct_rules_no_site + List.length rules_with_sites = List.length struct_rules_all /\
   List.length struct_rule_sites = 63 /\
   count_kind k_unwrap + count_kind k_expect + count_kind k_index + count_kind k_span_new + count_kind k_macro = 63 /\
-  List.length struct_sites_proved = 49 /\
-  List.length struct_rule_sites - List.length struct_sites_proved = 14.
+  List.length struct_sites_proved = 58 /\
+  List.length struct_rule_sites - List.length struct_sites_proved = 5.
 Proof. vm_compute. repeat split; reflexivity. Qed.
 
 (* ---------- non-vacuity ---------- *)
